@@ -86,6 +86,10 @@ type RWMutex struct {
 	readers int
 	owner   *Task
 	wait    []*Task
+	// race annotations use the three synchronisation objects of the real RWMutex: a writer releases to the next writer
+	// (wTok) and to readers (rsTok), a reader releases to the next writer only (wsTok). Readers are not ordered with
+	// each other - two readers that write the same word race, as they do under sync.RWMutex.
+	wTok, rsTok, wsTok int64
 }
 
 //go:norace
@@ -112,7 +116,9 @@ func (m *RWMutex) Lock() {
 	}
 	m.w = true
 	m.owner = t
-	raceAcquire(unsafe.Pointer(m))
+	raceAcquire(unsafe.Pointer(&m.wTok))
+	raceAcquire(unsafe.Pointer(&m.rsTok))
+	raceAcquire(unsafe.Pointer(&m.wsTok))
 }
 
 //go:norace
@@ -120,7 +126,8 @@ func (m *RWMutex) Unlock() {
 	if !m.w {
 		panic("sync: Unlock of unlocked RWMutex")
 	}
-	raceRelease(unsafe.Pointer(m))
+	raceRelease(unsafe.Pointer(&m.rsTok))
+	raceRelease(unsafe.Pointer(&m.wTok))
 	m.w = false
 	m.owner = nil
 	m.wakeAll()
@@ -141,7 +148,7 @@ func (m *RWMutex) RLock() {
 		s.block(t, "rwmutex-r")
 	}
 	m.readers++
-	raceAcquire(unsafe.Pointer(m))
+	raceAcquire(unsafe.Pointer(&m.rsTok))
 }
 
 //go:norace
@@ -149,7 +156,7 @@ func (m *RWMutex) RUnlock() {
 	if m.readers <= 0 {
 		panic("sync: RUnlock of unlocked RWMutex")
 	}
-	raceReleaseMerge(unsafe.Pointer(m))
+	raceReleaseMerge(unsafe.Pointer(&m.wsTok))
 	m.readers--
 	if m.readers == 0 {
 		m.wakeAll()
